@@ -21,7 +21,11 @@
    the temporary directory is a function of the sources and is no part of the persistent state.
    Not modelled: the cache for output_dirs targets (they never use it here), dependents of output_dirs
    targets (they would see the discovered outputs), post-build functions.
+   Tools declared in dict form (tools = {"n": [...]}, the command UseNTool reaches them through $TOOLS_N) are tools like the
+   others for the command; whether they enter the source hash follows the accessor sourceHash ranges over in the
+   source (Gen/EngineRecord.v, source_hash_tools: AllTools() = list-form then dict-form tools; Tools = list-form only).
    No proofs here. *)
+From PlzV Require Gen.EngineRecord.
 From PlzV Require Import Base.Harness.
 
 (* ------------------------------------------------------------------------------------------ *)
@@ -115,7 +119,8 @@ Inductive cmd :=
 | CatAll (dir : str) (* (cd $PKG_DIR && cat every regular *.txt file there, in glob order) > $OUTS; dir = $PKG_DIR *)
 | UseTool           (* cat $TOOLS $SRCS > $OUTS *)
 | ToolNames         (* for t in $TOOLS; do basename $t; done > $OUTS: depends on the NAMES of the tool outputs *)
-| OutDir.           (* output_dirs = ["_o"]: cp every (file) source into _o by base name; echo fixed > first of $OUTS *)
+| OutDir            (* output_dirs = ["_o"]: cp every (file) source into _o by base name; echo fixed > first of $OUTS *)
+| UseNTool.         (* cat $TOOLS_N $SRCS > $OUTS with tools = {"n": [...]}: ALL tools of such a target are dict-form (named) *)
 
 Inductive kind :=
 | Genrule (c : cmd)
@@ -300,10 +305,19 @@ Definition key_of (ins : list (path * node)) : skey := map (fun pn => (fst pn, s
 Definition nopath : path := (true, []).
 Definition anon_ins (ins : list (path * node)) : list (path * node) := map (fun pn => (nopath, snd pn)) ins.
 
+(* are the tools of t declared in dict form?  (in the modelled fragment: exactly the targets whose command is UseNTool) *)
+Definition named_tools (t : target) : bool := match t_kind t with Genrule UseNTool => true | _ => false end.
+(* does the tools loop of sourceHash reach the dict-form tools?  regenerated from incrementality.go *)
+Definition hash_named_tools : bool :=
+  match EngineRecord.source_hash_tools with EngineRecord.TAllTools => true | EngineRecord.TUnnamedTools => false end.
+(* the tool outputs that enter the source hash *)
+Definition hashed_tool_paths (r : repo) (t : target) : list path :=
+  if negb hash_named_tools && named_tools t then [] else tool_paths r t.
+
 (* sourceHash (incrementality.go:112): for src in IterSources: h(path hash of src), src; then for every output of
-   every tool: h(path hash) - nothing else *)
+   every tool the loop reaches: h(path hash) - nothing else *)
 Definition source_key (r : repo) (st : store) (t : target) : option skey :=
-  match gather (read r st) (iter_sources r t), gather (read r st) (tool_paths r t) with
+  match gather (read r st) (iter_sources r t), gather (read r st) (hashed_tool_paths r t) with
   | Some a, Some b => Some (key_of a ++ key_of (anon_ins b))
   | _, _ => None
   end.
@@ -453,7 +467,7 @@ Definition act (k : kind) (outs : list str) (ins : list (str * node)) : option (
   | Genrule (Const a) => Some (map (fun o => (o, File false (a ++ nl))) outs)
   | Genrule Fail => None
   | Genrule (CatAll dir) => match outs with [o] => Some [(o, File false (cat_all dir ins))] | _ => None end
-  | Genrule UseTool =>
+  | Genrule UseTool | Genrule UseNTool =>
       match outs with
       | [o] => match all_files (filter is_tool_in ins ++ filter (fun pn => negb (is_tool_in pn)) ins) with
                | Some c => Some [(o, File false c)]
